@@ -3,10 +3,11 @@ SPEC = dict(
     bin="c14",
     # the sparse-bit-set codec half (second builder) adds: bins += ["c14sbs"], props += ["C14/SbsProps.v"],
     # coq_targets += ["C14/SbsProofs.vo", "C14/SbsExamples.vo"]
-    bins=["c14"],
-    props=["C14/Props.v"],
+    bins=["c14", "c14sbs"],
+    props=["C14/Props.v", "C14/SbsProps.v"],
     coq_dir="C14",
-    coq_targets=["C14/Proofs.vo", "C14/SetObs.vo", "C14/SetAfter.vo", "C14/SetRange.vo", "C14/Examples.vo"],
+    coq_targets=["C14/Proofs.vo", "C14/SetObs.vo", "C14/SetAfter.vo", "C14/SetRange.vo", "C14/Examples.vo",
+                 "C14/SbsProofs.vo", "C14/SbsSpec.vo", "C14/SbsRoundtrip.vo", "C14/SbsExamples.vo"],
     allowed_axioms=[],
     level_text=("Unbounded Coq theorems about an executable model of read-fonts' IntSet / BitSet / BitPage: for EVERY sequence of "
                 "insert / remove / insert_range / remove_range / extend / remove_all / union / intersect / subtract / invert / clear / "
@@ -29,11 +30,14 @@ SPEC = dict(
                 "Tested only (model correspondence + shadow): inverted-mode iteration/first/last/ranges/iter_after, iter_ranges, intersects_*, "
                 "Eq/Ord/Hash, discontinuous domains; RangeSet theorems are bounded."),
     technique="Coq proof (N bit lemmas, sorted association lists, induction over operation sequences) over hand-written Gallina model + vm_compute correspondence with read-fonts through the public API",
-    modelled=["read-fonts/src/collections/int_set/bitpage.rs: BitPage insert/remove/contains/insert_range/remove_range/len/iter/iter_after/iter_ranges, union/intersect/subtract (as one 512-bit integer)",
+    modelled=["read-fonts/src/collections/int_set/{sparse_bit_set.rs, input_bit_stream.rs, output_bit_stream.rs}: decoder (BFS, filled nodes, bias/max, early break, skip_nodes), encoder per branch factor, to_sparse_bit_set, bit streams; plus an independent transcription of the IFT specification's decoding algorithm (spec_decode)",
+              "read-fonts/src/collections/int_set/bitpage.rs: BitPage insert/remove/contains/insert_range/remove_range/len/iter/iter_after/iter_ranges, union/intersect/subtract (as one 512-bit integer)",
               "read-fonts/src/collections/int_set/bitset.rs: BitSet insert/remove/insert_range/remove_range/remove_all/extend/extend_unsorted/contains/len/clear/iter/iter_after/iter_ranges/process(union,intersect,subtract,reversed_subtract)/Eq/Ord (sorted major->page list + cached length)",
               "read-fonts/src/collections/int_set/mod.rs: Membership, IntSet insert/remove/insert_range/remove_range/extend/extend_unsorted/remove_all/union/intersect/subtract/invert/clear/contains/len/is_empty/iter/iter_after/iter_ranges/iter_excluded_ranges/first/last/intersects_range/intersects_set/Eq/Ord/is_inverted for continuous domains",
               "read-fonts/src/collections/range_set.rs: RangeSet insert/extend/FromIterator/iter/intersection, OrdAdjacency for u32/u16"],
-    not_covered=["discontinuous Domain implementations (Even, TwoIntervals in the harness): implementation-only BTreeSet shadow oracle, not in the Coq model",
+    not_covered=["sparse-bit-set general round trip: proved for all 4096 subsets of [0,12) x 4 branch factors + auto (complete enumeration), tested beyond; the three remaining proof steps are listed in coq/C14/SbsRoundtrip.v",
+                 "sparse-bit-set decoder theorems (totality, equivalence with spec_decode) assume input length <= 2^27 bytes",
+                 "discontinuous Domain implementations (Even, TwoIntervals in the harness): implementation-only BTreeSet shadow oracle, not in the Coq model",
                  "Hash (equal sets hash equally; rebuild in the same/opposite mode hashes equally), mixed-direction iteration on one iterator, inclusive_iter, RangeSet<u16>: implementation-only oracle",
                  "no theorem (model tied by correspondence + shadow oracle only) for: inverted-mode iter/first/last/iter_after, iter_ranges / iter_excluded_ranges, intersects_range, intersects_set, Eq (eq_iff_members), Ord, and that excluded values stay inside the domain",
                  "RangeSet: rangeset_canonical / rangeset_intersection proved only bounded (all insert sequences of length <= 3 over ranges in [0,5]; intersections over [0,3]); unbounded statements rest on correspondence + sort-and-sweep oracle",
